@@ -216,6 +216,8 @@ class Executor(object):
         self.unsupported = []
         self.paths = []
         self.max_paths = 12000
+        self.created_ids = set()      # ids of Python containers created BY the code under analysis (literals, copies)
+        self._keepalive = []
         self.used_externals = set()
         self.used_callee_clauses = set()
         self.inlined = set()
@@ -1584,7 +1586,10 @@ class Executor(object):
             if isinstance(vs, Raised):
                 yield st1, vs
             else:
-                yield st1, {k.value: v for k, v in zip(e.keys, vs)}
+                d_ = {k.value: v for k, v in zip(e.keys, vs)}
+                self.created_ids.add(id(d_))
+                self._keepalive.append(d_)
+                yield st1, d_
 
     def ex_JoinedStr(self, st, e):
         yield st, SStr(fresh("fstr", Bytes))
@@ -2017,6 +2022,8 @@ class Executor(object):
                 out[p.name] = va[0].vl if va else tuple(out.get(p.name, ()))
             if p.kind == p.VAR_KEYWORD:
                 out[p.name] = dict(out.get(p.name, {}))
+                self.created_ids.add(id(out[p.name]))          # the **kwargs dict is built by the call itself: a new object
+                self._keepalive.append(out[p.name])
         return out
 
     def inline_call(self, st, c, f, args, kwargs, node):
